@@ -303,7 +303,7 @@ def main():
         check_case(run, rng, work, 0, bytes.fromhex(case["hex"]), case.get("kind", "replay"), case.get("desc"), cases, meta)
         R.run_agree_all(run, cases, meta, "replay", "replay")
         run.finish()
-    for k in range(run.pick(70, 2500)):
+    for k in range(run.pick(180, 2500)):
         data, kind, desc = gen_case(rng)
         check_case(run, rng, work, k, data, kind, desc, cases, meta)
         run.cov["distinct_nontrivial"] += 1
